@@ -1,4 +1,4 @@
-import AkVerif.Lemmas.ColorsConfHist
+import AkVerif.Lemmas.ColorsConfTotal
 /-!
 # C14 — syntax colors resolve by inheritance, independent of registration order
 
@@ -288,6 +288,35 @@ theorem cache_fresh (classes : List ClassDef) (nc : Bool) (cfg : Cfg) (ops : Lis
   have := getColor_spec hg'.conf.good a.2
   rwa [hl.nc.trans hnc] at this
 
+/-- **Valid, acyclic sets never raise.** A history without palette creation, with pairwise different
+component names, in which every offered description string is accepted by the parser and whose final set
+of descriptions (first registration wins over explicit configuration, built-ins, later registrations) is
+acyclic, runs to the end: no `ValueError` from the parser or from `ColorFmt`, no circular-dependency
+assertion, no `KeyError`, and the model's fuel is never exhausted.  (Together with the theorems above:
+for every such history the formatters are exactly the declarative ones.) -/
+theorem no_error (classes : List ClassDef) (nc : Bool) (cfg : Cfg) (ops : List Op)
+    (hpl : ∀ op ∈ ops, op.plain = true) (hnames : (regNames ops).Nodup)
+    (hvalid : ∀ kv ∈ flatten cfg ++ (flatten Gen.C14.builtin ++ ops.flatMap opItems), (parsed kv.2).isSome = true)
+    (hac : Acyclic (fun id =>
+      (dictGet (flatten cfg ++ (flatten Gen.C14.builtin ++ ops.flatMap opItems)) id).bind parsed)) :
+    ∃ w, run classes nc cfg ops = .ok w :=
+  run_total hpl hnames (fun kv hkv => parsed_isSome (hvalid kv hkv)) hac
+
+/-- a single registration on any reachable state: valid new descriptions and an acyclic result are enough -/
+theorem no_error_add (classes : List ClassDef) (nc : Bool) (cfg : Cfg) (ops : List Op) (w : World)
+    (h : run classes nc cfg ops = .ok w) (items : List (Id × Str))
+    (hvalid : ∀ kv ∈ items, (parsed kv.2).isSome = true)
+    (hac : Acyclic (fun id => (firstStr (strOf w.conf.map) items id).bind parsed)) :
+    ∃ c', addNewItems w.conf items = .ok c' :=
+  addNewItems_total (run_good h).1.conf.good (fun kv hkv => parsed_isSome (hvalid kv hkv)) hac
+
+/-- every colour the description parser lets through is accepted by `ColorFmt` (so `resolve` cannot raise
+`ValueError` on a parsed description, whatever it inherits) -/
+theorem parsed_colors_accepted (s : Str) (d : Desc) (h : parseInitStr s = .ok d) (par : Option Resolved)
+    (hpar : ∀ p, par = some p → resOk p = true) (nc : Bool) :
+    resOk (effOf par d) = true ∧ ∃ f, mkFmt nc (effOf par d) = .ok f :=
+  ⟨effOf_ok hpar (parseInitStr_ok h), mkFmt_ok nc (effOf_ok hpar (parseInitStr_ok h))⟩
+
 /-! Non-vacuity: concrete histories evaluated by the kernel.  `B` refers to `A` (registered later) and
 selects the terminal default foreground with `-`; `C` refers to `B`.  Before `A` is known both are
 uncoloured, afterwards `B` = ESC[44;1m (background and bold inherited, foreground default) and
@@ -332,5 +361,15 @@ example : colorsAfter (run [] true exCfg exOps) [['A'], ['B'], ['C'], ['?']] = s
 example : (match run [] false (.dict (.cons ['A'] (.str ['B']) (.cons ['B'] (.str ['A']) .nil))) [] with
     | .ok _ => none
     | .error e => some e) = some .assertion := by decide +kernel
+
+/-- the hypotheses of `no_error` hold for `exCfg` / `exOps` -/
+example : (∀ op ∈ exOps, op.plain = true) ∧ (regNames exOps).Nodup ∧
+    (∀ kv ∈ flatten exCfg ++ (flatten Gen.C14.builtin ++ exOps.flatMap opItems), (parsed kv.2).isSome = true) ∧
+    Acyclic (fun id =>
+      (dictGet (flatten exCfg ++ (flatten Gen.C14.builtin ++ exOps.flatMap opItems)) id).bind parsed) :=
+  ⟨by decide +kernel, by decide +kernel, by decide +kernel,
+   acyclic_of_check
+     (rank := chainDepth (flatten exCfg ++ (flatten Gen.C14.builtin ++ exOps.flatMap opItems)) 20)
+     (by decide +kernel)⟩
 
 end C14
